@@ -1,4 +1,5 @@
 """C18 - approximate (local) estimation is valid, and exact when nothing is relaxed."""
+import itertools
 import numpy as np
 from hypothesis import strategies as st
 from . import gen, oracles, inf
@@ -53,7 +54,26 @@ def cases(draw, tier='quick'):
             'total': draw(st.sampled_from([1.0, 10, 100.0, 1000.0, None])) if mode == 'valid' else draw(st.sampled_from([1.0, 10, 100.0, None])), 'true_total': draw(st.sampled_from([1.0, 20.0, 500.0])),
             'oracle': draw(st.sampled_from(['convex', 'approx', 'pairwise'])),
             'iters': draw(st.sampled_from([1, 2, 3, 5, 20, 100, 300])), 'inner_iters': draw(st.sampled_from([1, 3])),
-            'prior_call': draw(st.integers(0, 2)) == 0}
+            'prior_call': draw(st.integers(0, 2)) == 0,
+            # structural zeros (constructor argument): a few impossible cells / one impossible value of an attribute
+            'zeros': (draw(zero_regime(attrs, shape)) if mode == 'valid' and draw(st.integers(0, 3)) == 0 else [])}
+
+
+@st.composite
+def zero_regime(draw, attrs, shape):
+    if draw(st.booleans()):
+        return draw(inf.zero_specs(attrs, shape, [0] * len(attrs)))
+    cand = [i for i, s_ in enumerate(shape) if s_ >= 2]
+    if not cand:
+        return []
+    i = draw(st.sampled_from(cand))
+    others = [a for a in attrs if a != attrs[i]]
+    cl = [attrs[i]] + (draw(gen.ordered_subset(others, 0, min(2, len(others)))) if others else [])
+    cl = list(draw(st.permutations(cl)))
+    v = draw(st.integers(1, shape[i] - 1))
+    dims = [shape[attrs.index(a)] for a in cl]
+    cells = [list(c) for c in itertools.product(*[range(d) for d in dims]) if c[cl.index(attrs[i])] == v]
+    return [{'clique': cl, 'cells': cells}]
 
 
 def strategy(tier):
@@ -102,7 +122,10 @@ def run_case(case):
     overlap = any(a & b for i, a in enumerate(projs) for b in projs[i + 1:] if a != b)
     if case['mode'] == 'valid':
         out.classes.append('iters:%d' % case['iters'])
-        eng = mbi.LocalInference(domain, iters=case['iters'], marginal_oracle=case['oracle'], inner_iters=case['inner_iters'])
+        zs = case.get('zeros') or []
+        kw = {'structural_zeros': inf.zeros_dict(zs)} if zs else {}
+        eng = mbi.LocalInference(domain, iters=case['iters'], marginal_oracle=case['oracle'], inner_iters=case['inner_iters'], **kw)
+        if zs: out.classes.append('structural_zeros')
         if case.get('prior_call'):
             # the same estimator object was used before, on other answers to (a prefix of) the same queries
             prior = [(q, y[::-1].copy() * 0.5, nz, cl) for q, y, nz, cl in ms[:max(1, len(ms) - 1)]]
@@ -113,7 +136,16 @@ def run_case(case):
         if not out.ok: return out
         tot = float(model.total)
         Lu = inf.loss_from_answers(meas, lambda proj: np.full([shape[attrs.index(a)] for a in proj], tot / np.prod([shape[attrs.index(a)] for a in proj])))
-        if L > Lu * (1 + 1e-6) + inf.loss_floor(meas, tot):
+        if zs:
+            # the uniform table is not a feasible start any more; instead: impossible cells carry no mass
+            for m in meas:
+                for z in zs:
+                    if set(z['clique']) <= set(m.proj):
+                        v = np.asarray(model.project(tuple(m.proj)).values, float)
+                        mask = inf.zero_mask([z], list(m.proj), list(v.shape))
+                        if float(np.abs(v[mask]).sum()) > 1e-9 * tot:
+                            return out.fail('mass_on_structural_zero', 'table %s puts mass %r on cells declared impossible by %s' % (tuple(m.proj), float(np.abs(v[mask]).sum()), z['clique']))
+        elif L > Lu * (1 + 1e-6) + inf.loss_floor(meas, tot):
             return out.fail('worse_than_uniform', 'loss %r of the returned tables exceeds the loss %r of uniform tables (oracle %s, iters %d)' % (L, Lu, case['oracle'], case['iters']))
         if case['oracle'] == 'convex':
             pf = model.primal_feasibility(model.marginals)
